@@ -265,7 +265,11 @@ func runC14(c *ctx, r *Report) error {
 		if len(ins) > 0 {
 			am.WriteString("inputs:\n")
 			for _, d := range ins {
-				fmt.Fprintf(&am, "  %s:\n    description: d\n    required: %v\n", d.name, d.required)
+				if d.required || rng.Intn(2) == 0 {
+					fmt.Fprintf(&am, "  %s:\n    description: d\n    required: %v\n", d.name, d.required)
+				} else {
+					fmt.Fprintf(&am, "  %s:\n    description: d\n", d.name)
+				}
 				if d.dflt {
 					am.WriteString("    default: dv\n")
 				}
@@ -284,7 +288,11 @@ func runC14(c *ctx, r *Report) error {
 		if len(ins) > 0 {
 			rw.WriteString("    inputs:\n")
 			for _, d := range ins {
-				fmt.Fprintf(&rw, "      %s:\n        type: %s\n        required: %v\n", d.name, d.typ, d.required)
+				if d.required || rng.Intn(2) == 0 {
+					fmt.Fprintf(&rw, "      %s:\n        type: %s\n        required: %v\n", d.name, d.typ, d.required)
+				} else {
+					fmt.Fprintf(&rw, "      %s:\n        type: %s\n", d.name, d.typ) // `required:` left out = not required
+				}
 				if d.dflt {
 					dv := map[string]string{"string": "dv", "number": "1", "boolean": "true"}[d.typ]
 					rw.WriteString("        default: " + dv + "\n")
@@ -294,7 +302,14 @@ func runC14(c *ctx, r *Report) error {
 		if len(secs) > 0 {
 			rw.WriteString("    secrets:\n")
 			for _, d := range secs {
-				fmt.Fprintf(&rw, "      %s:\n        required: %v\n", d.name, d.required)
+				switch {
+				case d.required || rng.Intn(3) == 0:
+					fmt.Fprintf(&rw, "      %s:\n        required: %v\n", d.name, d.required)
+				case rng.Intn(2) == 0:
+					fmt.Fprintf(&rw, "      %s:\n        description: d\n", d.name) // `required:` left out = not required
+				default:
+					fmt.Fprintf(&rw, "      %s:\n", d.name) // no specification at all
+				}
 			}
 		}
 		if len(outs) > 0 {
